@@ -150,6 +150,10 @@ func (w *World) applyNetFault(c *ClientInfo, f *Fault, path string, data []byte,
 					n := 1 + int64(f.A%uint64(c.Size-1))
 					out = append([]byte(ref.FormatRecordMsg(id, c.Uni.Records[id])), c.Uni.Signed(n)...)
 					what = fmt.Sprintf("record %d with old head %d", id, n)
+					if n <= id {
+						// a splice no honest server produces: a true record with a true head that does not cover it
+						w.Res.Faults["stale-splice"]++
+					}
 					break
 				}
 			}
